@@ -57,6 +57,12 @@ CLAIMED.update({
                 note="Wirings are an enumerated shape dimension (the clone code hashes values, which concretises references); payloads are the solver's dimension. Skeletons: 2 blocks, 4 ops, one nested region; destinations with 0-2 existing blocks."),
 })
 
+CLAIMED.update({
+    "C11": dict(cat="other", design="DESIGN.md §4 C11",
+                text="The real PatternRewriteWalker + GreedyRewritePatternApplier + PatternRewriter run on IR skeletons (nesting depth 2) whose per-op attribute payloads are SYMBOLIC; a terminating pattern family (erase incl. nested regions, replace, modify in place, insert) matches on the payloads, so the set of rewritten ops - and with it the worklist history - is determined by symbolic data and all combinations are explored. For all 8 walk configurations x {no post-walk function, region_dce, region_dce with applier DCE off} z3 decides: no exception escapes, patterns only see attached ops, fixpoint reached in recursive mode, returned flag == 'IR changed', every removal/insertion reported to the listener; plus has_done_action/notification obligations for each PatternRewriter mutation method.",
+                note="The schedule dimension is covered only as far as the walk configurations and the payload-driven match sets generate it (no arbitrary worklist permutations). Skeletons of 6-7 ops; 4 symbolic payloads quick, 6 thorough; payload range 0..4."),
+})
+
 NOT_APPLICABLE = {
     "C05": "custom assembly formats: the quantifier is over ~80 dialects' op definitions/format programs; no data dimension for a solver beyond what C04/C06 cover for leaves (DESIGN §5)",
     "C17": "pass x corpus-module cross product: deciding it means running each pair concretely; no symbolic dimension (DESIGN §5)",
